@@ -14,6 +14,8 @@
 //!   run <r> <j> <delay_seed> <max_us> <spinners> ok <len> <fnv> <nevents> | run .. panic|hang <msg>
 //!   file multi-<r> k      (only when the bytes differ from the single-thread bytes)
 //!   file events-<r> k     (hook H4b lines: begin j n / pull w i / send w i / recv i / end)
+//!   planted-panic <lit>   last case: a query with the literal -2147483648, on which the operations
+//!                         panic in a build with overflow checks (abs overflow, a finding of C13)
 use crate::common::*;
 use crate::gen::*;
 use crate::rng::Rng;
@@ -406,10 +408,58 @@ pub fn run(_kind: &str, ctx: &Ctx, out: &mut dyn Write) {
     std::env::remove_var("VERIF_DELAY_SEED");
     std::env::remove_var("VERIF_DELAY_MAX_US");
     std::env::remove_var("VERIF_EVENT_LOG");
-    let _ = std::fs::remove_dir_all(&tmp);
-    if hung {
-        // blocked threads cannot be joined
-        out.flush().unwrap();
-        std::process::exit(0);
+    // ---- planted: an operation that panics on one query of the file
+    if !hung {
+        if let Some(model) = vp9.as_ref() {
+            let content = b"1\n2 3\n-2147483648\n4\n5 -6\n".to_vec();
+            std::fs::write(&qpath, &content).unwrap();
+            for op in [Op::Count, Op::Sat] {
+                let opname = if op == Op::Count { "count" } else { "sat" };
+                let mut s = String::new();
+                writeln!(s, "case c15-planted-{} C15", opname).unwrap();
+                writeln!(s, "info model={} a query on which the operation panics when overflow checks are on", model.name).unwrap();
+                writeln!(s, "n {}", model.n).unwrap();
+                writeln!(s, "op {}", opname).unwrap();
+                writeln!(s, "planted-panic -2147483648").unwrap();
+                s.push_str(&dump_circuit(&model.ddnnf));
+                s.push_str(&bytes_block("queries", &content));
+                if let Ok(items) = guarded(|| ddnnife::parser::parse_queries_file(&qpath)) {
+                    writeln!(s, "impl parsed ok {}", items.len()).unwrap();
+                    writeln!(s, "file parsed {}", items.len()).unwrap();
+                    for (i, q) in items.iter() {
+                        writeln!(s, "| {} {}", i, join(q)).unwrap();
+                    }
+                }
+                let wd = Duration::from_secs(3);
+                let single = evaluate(&model.ddnnf, op, 1, &qpath, wd);
+                let single_bytes = match &single {
+                    Outcome::Ok(b) => {
+                        writeln!(s, "impl single ok {} {:016x}", b.len(), fnv64(b)).unwrap();
+                        s.push_str(&bytes_block("single", b));
+                        Some(b.clone())
+                    }
+                    Outcome::Panic(m) => { writeln!(s, "impl single panic {}", short(m)).unwrap(); None }
+                    Outcome::Hang => { writeln!(s, "impl single hang").unwrap(); None }
+                };
+                for (r, j) in [1u16, 2, 4].iter().enumerate() {
+                    match evaluate(&model.ddnnf, op, *j, &qpath, wd) {
+                        Outcome::Ok(b) => {
+                            writeln!(s, "run {} {} 0 0 0 ok {} {:016x} 0", r, j, b.len(), fnv64(&b)).unwrap();
+                            if Some(&b) != single_bytes.as_ref() {
+                                s.push_str(&bytes_block(&format!("multi-{}", r), &b));
+                            }
+                        }
+                        Outcome::Panic(m) => writeln!(s, "run {} {} 0 0 0 panic {}", r, j, short(&m)).unwrap(),
+                        Outcome::Hang => writeln!(s, "run {} {} 0 0 0 hang", r, j).unwrap(),
+                    }
+                }
+                writeln!(s, "end").unwrap();
+                out.write_all(s.as_bytes()).unwrap();
+            }
+        }
     }
+    let _ = std::fs::remove_dir_all(&tmp);
+    // threads blocked in a hung evaluation cannot be joined
+    out.flush().unwrap();
+    std::process::exit(0);
 }
